@@ -1635,7 +1635,13 @@ func (state *RuntimeState) u2fTokenManagerHandler(w http.ResponseWriter, r *http
 		return
 	}
 	w.(*instrumentedwriter.LoggingWriter).SetUsername(authData.Username)
-	// TODO: ensure is a valid method (POST)
+	// The CSRF (origin/referer) check of checkAuth only covers non GET
+	// requests, so this state changing endpoint MUST be POST only.
+	if r.Method != "POST" {
+		logger.Printf("Wanted Post got='%s'", r.Method)
+		state.writeFailureResponse(w, r, http.StatusMethodNotAllowed, "")
+		return
+	}
 	err = r.ParseForm()
 	if err != nil {
 		logger.Println(err)
